@@ -391,7 +391,7 @@ def expected_e2e(how, path):
 
 def main():
     chk = Check("C17", "proof")
-    chk.cov["trusted_base"] = TRUSTED_COMMON + ["Print Assumptions: all ten theorems closed under the global context (no axioms)",
+    chk.cov["trusted_base"] = TRUSTED_COMMON + ["Print Assumptions: all twelve theorems closed under the global context (no axioms)",
                                                "path resolution by the operating system is the specification function Spec.resolve (POSIX, symbolic links aside); std::path::PathBuf::push (Unix) is modelled by Model.push",
                                                "the model of State::get_template / join_template_path / LoaderStore::get / perform_include / load_blocks (names_from_templates_* theorems) is tied to the engine by the names part: a recording loader reports the names it is asked for, with no callback and with three callbacks"]
     chk.assumptions = ["Unix path semantics (Windows drive/UNC prefixes are outside the model)", "no symbolic links inside the base (excluded by the property)",
